@@ -60,12 +60,20 @@ def case_strategy():
             extra = [i]
         else:
             extra = []
+        second = []
+        if draw(st.integers(0, 2)) == 0:
+            # a second, independent overloading class (not marked) listed between the first base and the mixins
+            i = len(classes)
+            classes.append({"id": i, "mc": True, "bases": [], "defs": [leaf(anns[6]), leaf(anns[7])], "ext": False,
+                            "marked": False, "style": "OvldBase"})
+            second = [i]
         i = len(classes)
-        own = [leaf(anns[4]), leaf(anns[5])] if draw(st.integers(0, 2)) == 0 else []
-        classes.append({"id": i, "mc": True, "bases": [0, last_plain] + extra, "defs": own, "ext": False, "marked": False,
-                        "style": "OvldBase"})
+        own = [leaf(anns[4]), leaf(anns[5])] if draw(st.integers(0, 2 if not second else 1)) == 0 else []
+        classes.append({"id": i, "mc": True, "bases": [0] + second + [last_plain] + extra, "defs": own,
+                        "ext": bool(own) and draw(st.booleans()), "marked": False, "style": "OvldBase",
+                        "mark_at": draw(st.integers(0, 1)) if own else 0})
         if draw(st.booleans()):
-            classes.append({"id": i + 1, "mc": True, "bases": [i], "defs": [leaf(anns[6]), leaf(anns[0], 1)],
+            classes.append({"id": i + 1, "mc": True, "bases": [i], "defs": [leaf(anns[3] if not extra else anns[2]), leaf(anns[0], 1)],
                             "ext": draw(st.booleans()), "marked": False, "style": "OvldBase"})
         return {"classes": classes}
 
@@ -285,7 +293,12 @@ def effective(classes):
             later = [b for b in ovl[1:] if KIND[b] == "flagged"]
             plains = [b for b in with_f if KIND[b] == "plain"]
             pre = overlay([eff[ovl[0]]] + [eff[b] for b in later] + [eff[b] for b in plains])
-        if pre is not None:
+        if pre is not None and c["ext"] and c["defs"]:
+            # an own @extend_super definition on top of the pre-merge: all bases, as the statement says
+            eff[cid] = overlay([eff[b] for b in with_f] + [c["defs"]])
+            KIND[cid] = "ovld"
+            MERGED.add(cid)
+        elif pre is not None:
             eff[cid] = overlay([pre, c["defs"]])
             KIND[cid] = "ovld"
             MERGED.add(cid)
@@ -326,8 +339,6 @@ def unsupported(classes):
         merged = len(ovl) >= 2 and any(kind[b] == "flagged" for b in ovl[1:])
         if len(with_f) >= 2 and not c["ext"] and not merged and c["defs"]:
             bad.add(c["id"])  # several bases carrying overloads, own definitions, nothing asks for a merge
-        if merged and c["defs"] and c["ext"]:
-            bad.add(c["id"])  # a pre-merged attribute AND an own @extend_super definition: not documented
         if (c["ext"] or merged) and len(with_f) >= 2:
             seen = {}
             for b in with_f:
